@@ -116,46 +116,49 @@ func (q *Queue) Add(elem *queue.Elem) (err error) {
 		dropErr = queue.ErrDropQueueFull
 		drop = true
 
-		// drop expired inflight message
-		if v := q.l.Front(); v != q.current &&
-			v != nil &&
-			queue.ElemExpiry(now, v.Value.(*queue.Elem)) {
-			dropElem = v
-			dropErr = queue.ErrDropExpiredInflight
-			return
-		}
+		// An element that has been handed out has a packet id (QoS 0 messages are removed when read),
+		// whether or not the read cursor has passed it yet (after Init it starts at the front again).
 
-		// drop the current elem if there is no more non-inflight messages.
-		if q.inflightDrained && q.current == nil {
-			return
+		// 1. drop the first expired inflight message
+		for e := q.l.Front(); e != nil; e = e.Next() {
+			el := e.Value.(*queue.Elem)
+			if el.ID() != 0 && queue.ElemExpiry(now, el) {
+				dropElem = e
+				dropErr = queue.ErrDropExpiredInflight
+				return
+			}
 		}
-		for e := q.current; e != nil; e = e.Next() {
-			pub := e.Value.(*queue.Elem).MessageWithID.(*queue.Publish)
-			// drop expired non-inflight message
-			if pub.ID() == 0 &&
-				queue.ElemExpiry(now, e.Value.(*queue.Elem)) {
+		// the non-inflight messages
+		var front *list.Element
+		for e := q.l.Front(); e != nil; e = e.Next() {
+			el := e.Value.(*queue.Elem)
+			if el.ID() != 0 {
+				continue
+			}
+			pub := el.MessageWithID.(*queue.Publish)
+			if front == nil {
+				front = e
+			}
+			// 3. drop expired non-inflight message
+			if queue.ElemExpiry(now, el) {
 				dropElem = e
 				dropErr = queue.ErrDropExpired
 				return
 			}
-			// drop qos0 message in the queue
-			if pub.ID() == 0 && pub.QoS == packets.Qos0 && dropElem == nil {
+			// 4. drop qos0 message in the queue
+			if pub.QoS == packets.Qos0 && dropElem == nil {
 				dropElem = e
 			}
 		}
 		if dropElem != nil {
 			return
 		}
-		if elem.MessageWithID.(*queue.Publish).QoS == packets.Qos0 {
+		// 2. drop the current elem if there is no more non-inflight messages, or if it is a qos0 message
+		if front == nil || elem.MessageWithID.(*queue.Publish).QoS == packets.Qos0 {
 			return
 		}
-
-		if q.inflightDrained {
-			// drop the front message
-			dropElem = q.current
-			return
-		}
-		// the messages in the queue are all inflight messages, drop the current elem
+		// 5. drop the front message
+		dropElem = front
 		return
 	}
 	return nil
